@@ -30,7 +30,7 @@ func (c21) Describe() engine.Info {
 	return engine.Info{
 		Rule:           "channel 1/2: duty steps counted over a window of K whole periods of 4x(2048-f) clocks must be exactly K (K chosen so that the window is about 20,000 machine cycles); channel 3: wave positions advanced over a window of K periods of 2x(2048-f) clocks (K even); channel 4: machine cycles between changes of the shift register = d(r)x2^s / 4 for every NR43 value with s<=13, and the output bit sequence at r=0,s=0 has period 32767 (15-bit) / 127 (7-bit) and no shorter period. quick: 64 frequencies per channel incl. 0, 1, 2046, 2047 and 64 NR43 values; thorough: all. While a channel is measured the other channels are triggered at random cycles. Signature = (channel, frequency or NR43 bucket).",
 		Assumptions:    []string{"waveform positions are read through the verif accessor (duty index, wave position, shift register)", "the first period after a trigger is not judged (the reload delay after a trigger is not part of the statement)"},
-		RequiredProbes: []string{"square_periods", "wave_periods", "noise_periods", "lfsr15_period", "lfsr7_period", "other_channel_triggered_during_measurement"},
+		RequiredProbes: []string{"retuned_without_trigger", "square_periods", "wave_periods", "noise_periods", "lfsr15_period", "lfsr7_period", "other_channel_triggered_during_measurement"},
 		RealComponents: realComponents, StubComponents: stubComponents,
 	}
 }
@@ -62,6 +62,12 @@ func (c21) Generate(r *engine.Rand, index int, tier string) *engine.Scenario {
 		sc.Class = fmt.Sprintf("ch%d", ch+1)
 		sc.SetP("ch", int64(ch+1))
 		sc.SetP("f", int64(freq(index%nf)))
+		if r.Bool() {
+			// the channel is triggered at another frequency first and retuned while playing
+			// (frequency registers rewritten without the trigger bit)
+			sc.SetP("f0", int64(r.Intn(2048)))
+			sc.SetP("retune_after", int64(r.Range(1, 3000)))
+		}
 	case index < nf*3+nNoise*([]int{1, 3}[map[bool]int{false: 0, true: 1}[thorough]]):
 		k := index - nf*3
 		sc.Class = "ch4"
@@ -127,25 +133,43 @@ func (c21) Execute(sc *engine.Scenario) *engine.Result {
 			return int(w.Pos3)
 		}
 		mod := 8
+		if ch == 3 {
+			mod = 32
+		}
+		lo, hi := uint16(0xff13), uint16(0xff14)
 		switch ch {
 		case 1:
 			m.Write(0xff12, 0xf0)
-			m.Write(0xff13, uint8(f))
-			m.Write(0xff14, 0x80|uint8(f>>8))
-			periodClocks = 4 * (2048 - f)
 		case 2:
 			m.Write(0xff17, 0xf0)
-			m.Write(0xff18, uint8(f))
-			m.Write(0xff19, 0x80|uint8(f>>8))
-			periodClocks = 4 * (2048 - f)
+			lo, hi = 0xff18, 0xff19
 		default:
 			m.Write(0xff1a, 0x80)
 			m.Write(0xff1c, 0x20)
-			m.Write(0xff1d, uint8(f))
-			m.Write(0xff1e, 0x80|uint8(f>>8))
-			periodClocks = 2 * (2048 - f)
-			mod = 32
+			lo, hi = 0xff1d, 0xff1e
 		}
+		per := func(f int) int {
+			if ch == 3 {
+				return 2 * (2048 - f)
+			}
+			return 4 * (2048 - f)
+		}
+		if f0 := int(sc.P("f0", -1)); f0 >= 0 {
+			// triggered at another frequency, then retuned while playing: the frequency registers
+			// are rewritten without the trigger bit; the period in progress ends at the old rate
+			m.Write(lo, uint8(f0))
+			m.Write(hi, 0x80|uint8(f0>>8))
+			m.RunCycles(uint64(sc.P("retune_after", 1)))
+			m.Write(lo, uint8(f))
+			m.Write(hi, uint8(f>>8))
+			m.RunCycles(uint64(per(f0)/4 + 2))
+			res.Probe("retuned_without_trigger")
+			res.Fault("retune")
+		} else {
+			m.Write(lo, uint8(f))
+			m.Write(hi, 0x80|uint8(f>>8))
+		}
+		periodClocks = per(f)
 		// skip the first period, then align to a step
 		m.RunCycles(uint64(periodClocks/4 + 2))
 		start := pos()
